@@ -14,6 +14,7 @@ line ends in ` hist-mismatch model=<v,…> impl=<v,…>` (the harness never prin
     start <id>                    -> pass <state> | fallback <state>
     finish <id> <code> [q=v,v,…]  -> done <code> <state>        (q: oracle LatencyAtQuantileMS values)
     burst <n> <step_ns>           -> burst <run-length outcomes> <state>   (n × (arrive; clock += step))
+    pburst <n>                    -> pburst pass=<a> fallback=<b> <state>   (n concurrent arrivals at one frozen instant = n `arrive` steps)
     park-warn <n>                 -> ok        (the next n requests arriving while the breaker is not in standby park in its Warn call)
     start <id>                    -> parked    (arrived, undecided; at most one at a time)
     start <id2> while one parked  -> unparked <pass|fallback> then <pass|fallback> <state>   (two `arrive` steps, the parked one first)
@@ -231,6 +232,19 @@ def step0 (s : St) : List String → St × String
       let r := burst s.cfg n d s.brk s.now ' ' 0 ""
       ({ s with brk := r.1, now := r.2.1 }, "burst " ++ r.2.2 ++ " " ++ stateStr r.1)
     | _, _ => (s, "bad-op")
+  | ["pburst", n] =>
+    -- n requests arriving at once at one frozen instant: every interleaving of their (lock-atomic) `arrive` steps is a
+    -- sequence of n such steps at the same clock reading, and the requests are indistinguishable: the answers are counted
+    match n.toNat? with
+    | some n =>
+      if s.parked.isSome || s.armed > 0 || n < 1 || n > 64 then (s, "bad-op") else
+      let r := (List.range n).foldl (fun (acc : Brk × Nat × Nat) _ =>
+        let a := arrive s.cfg acc.1 (abs s.now)
+        match a.1 with
+        | .pass => (a.2, acc.2.1 + 1, acc.2.2)
+        | .fallback => (a.2, acc.2.1, acc.2.2 + 1)) (s.brk, 0, 0)
+      ({ s with brk := r.1 }, "pburst pass=" ++ toString r.2.1 ++ " fallback=" ++ toString r.2.2 ++ " " ++ stateStr r.1)
+    | none => (s, "bad-op")
   | ["state"] => if s.parked.isSome then (s, "bad-op") else (s, stateStr s.brk)
   | ["effects"] =>
     if s.parked.isSome then (s, "bad-op") else
